@@ -151,6 +151,13 @@ type result struct {
 	WallS       float64           `json:"wall_s"`
 }
 
+// result of the test functions that already finished in this process (see Start)
+var (
+	carryMu      sync.Mutex
+	carried      *result
+	carriedStart time.Time
+)
+
 // Run is the per-process monitor state. All methods are safe for concurrent
 // use (the monitor must never become the race).
 type Run struct {
@@ -209,13 +216,24 @@ func Start(t *testing.T, prop string) *Run {
 		hashes: map[uint64]struct{}{}, start: time.Now(), maxSample: 4, maxFail: 40}
 	r.res = result{Property: prop, Worker: r.Worker, NWorkers: r.NWorkers, Seed: seed, Tier: tier,
 		Classes: map[string]int64{}, Counters: map[string]int64{}, FailCounts: map[string]int64{}, Notes: map[string]string{}}
+	// Several test functions of one leg run in the same process and share one result file per
+	// worker: a later Start continues the result of the earlier ones instead of overwriting it.
+	hashFlags := os.O_CREATE | os.O_WRONLY | os.O_TRUNC
+	carryMu.Lock()
+	if carried != nil && carried.Property == prop {
+		r.res = *carried
+		r.res.Done = false
+		r.start = carriedStart
+		hashFlags = os.O_CREATE | os.O_WRONLY | os.O_APPEND
+	}
+	carryMu.Unlock()
 	os.MkdirAll(out, 0o755)
 	var err error
 	r.inflight, err = os.OpenFile(filepath.Join(out, fmt.Sprintf("inflight.%d.txt", r.Worker)), os.O_CREATE|os.O_WRONLY|os.O_TRUNC, 0o644)
 	if err != nil {
 		t.Fatalf("verifkit: %v", err)
 	}
-	r.hashFile, err = os.OpenFile(filepath.Join(out, fmt.Sprintf("hashes.%d.%d.bin", r.Worker, os.Getpid())), os.O_CREATE|os.O_WRONLY|os.O_TRUNC, 0o644)
+	r.hashFile, err = os.OpenFile(filepath.Join(out, fmt.Sprintf("hashes.%d.%d.bin", r.Worker, os.Getpid())), hashFlags, 0o644)
 	if err != nil {
 		t.Fatalf("verifkit: %v", err)
 	}
@@ -486,6 +504,10 @@ func (r *Run) Finish() {
 		}
 		b, _ = json.MarshalIndent(&r.res, "", " ")
 	}
+	carryMu.Lock()
+	keep := r.res
+	carried, carriedStart = &keep, r.start
+	carryMu.Unlock()
 	name := filepath.Join(r.OutDir, fmt.Sprintf("result.%d.json", r.Worker))
 	if err := os.WriteFile(name+".tmp", b, 0o644); err == nil {
 		os.Rename(name+".tmp", name)
